@@ -102,8 +102,19 @@ func (w *worker) runPath(maxDepth int) (outcome string) {
 					if len(c.stats.ErrSamples) < 5 {
 						c.stats.ErrSamples = append(c.stats.ErrSamples, r.reason)
 					}
-				} else if strings.HasPrefix(r.reason, "unwind:") && len(c.stats.ErrSamples) < 5 {
-					c.stats.ErrSamples = append(c.stats.ErrSamples, r.reason)
+				} else if strings.HasPrefix(r.reason, "unwind:") {
+					if len(c.stats.ErrSamples) < 5 {
+						c.stats.ErrSamples = append(c.stats.ErrSamples, r.reason)
+					}
+					// candidate non-termination: kept with the path's inputs so that the check can run the real binary on them
+					if len(c.viol) == 0 {
+						n := len(c.viol)
+						w.recordPanic(r.reason)
+						if len(c.viol) > n {
+							c.viol[n].Msg = "hang: " + r.reason
+							c.viol[n].Hang = true
+						}
+					}
 				}
 			case goPanic:
 				// a Go run-time panic escaping the harness: violation of "never panics" for the code under test
